@@ -271,7 +271,17 @@ fn mixed_near_black() -> Vec<[f32; 3]> {
         v.push([t, 0.0, 0.5 * t]);
         v.push([t, t * 1.000_001, t]);
         v.push([1.0 - t, 1.0, 1.0 - 2.0 * t]);
+        // achromatic pixels (all three channels the same float): a "black stays black" / "grey pixel" shortcut keyed on the
+        // WHOLE pixel never fires for samples packed three different values to a pixel
+        v.push([t, t, t]);
+        v.push([1.0 - t, 1.0 - t, 1.0 - t]);
     }
+    for g in [0.0f32, 1.0, 0.5, 0.25, 0.081, 0.018, 0.04045, 0.0031308, 0.01, 0.1, 0.0031622776] {
+        v.push([g, g, g]);
+    }
+    v.push([0.0, 0.0, 1.0]);
+    v.push([1.0, 0.0, 0.0]);
+    v.push([0.0, 1.0, 0.0]);
     v
 }
 
@@ -600,7 +610,8 @@ pub fn gen_c10(sh: &mut Shards, o: &Opts) -> serde_json::Value {
             xs.extend(w);
             swept += s;
         }
-        let px = to_pixels(&xs);
+        let mut px = to_pixels(&xs);
+        px.extend(mixed_near_black());
         samples += 3 * px.len() as u64;
         for (at, w, h) in cut_images(px.len(), ti) {
             let img = &px[at..at + w * h];
